@@ -1,6 +1,7 @@
 """C07 - per-node cash ledger; every trade booked exactly once to the security's own parent."""
 from .. import mon1
-from . import _w1case
+from .. import mon2
+from . import _w1case, _w2case
 
 ID = "C07"
 LEVEL = "exploration"
@@ -12,12 +13,15 @@ ASSUMPTIONS = ["commission functions are harness-owned pure functions", "driver-
 
 def plan(tier):
     n = 1500 if tier == "quick" else 40000
-    return [dict(unit="w1", n=n, builds=["py", "so"], case_timeout=60)]
+    m = 400 if tier == "quick" else 10000
+    return [dict(unit="w1", n=n, builds=["py", "so"], case_timeout=60), dict(unit="w2", n=m, builds=["py", "so"], case_timeout=120)]
 
 
 def floors(tier):
-    return {"min_decided": 300, "counters": {"ledger_evals": 3000, "trade_booking_evals": 1000, "fee_row_evals": 3000}, "max_undecided_frac": 0.4}
+    return {"min_decided": 300, "counters": {"ledger_evals": 3000, "trade_booking_evals": 1000, "fee_row_evals": 3000, "c07_ledger_evals": 10000, "c07_trade_booking_evals": 2000}, "max_undecided_frac": 0.4}
 
 
 def run_case(unit, cs, idx, build, params):
+    if unit == "w2":
+        return _w2case.run_w2(cs, [mon2.c07_ledger])
     return _w1case.run_w1(cs, [mon1.Ledger()])
